@@ -313,6 +313,9 @@ class Builder:
         sd = self.rec["subs"][e[1]]
         args = []
         pre = []
+        # an ABI-typed argument has to be set() before the call; to keep the arguments' evaluation order
+        # left to right, by-value arguments of the same call are then evaluated into temporaries as well
+        hoist = any(p[0] == "abi" for p in sd["params"])
         for p, a in zip(sd["params"], e[2:]):
             if p[0] == "ref":
                 if a[0] == "Ref":
@@ -325,6 +328,10 @@ class Builder:
                 x = pt.abi.Uint64()
                 pre.append(x.set(self.b(a, env)))
                 args.append(x)
+            elif hoist:
+                tmpv = pt.ScratchVar(pt.TealType.anytype)
+                pre.append(tmpv.store(self.b(a, env)))
+                args.append(tmpv.load())
             else:
                 args.append(self.b(a, env))
         call = self.subs[e[1]](*args)
